@@ -42,6 +42,8 @@ def cases(draw, subject):
     kw = cfg["kw"]
     if "input_value" in kw and "cls" in cfg and cfg["cls"] not in ("ROC", "Counter") and draw(st.integers(0, 3)) == 0:
         kw["input_value"] = "volume"
+    if draw(st.integers(0, 6)) == 0:  # a legal name suffix; dots are documented to be sanitised
+        kw["name_suffix"] = draw(st.sampled_from(("a", "v1.5", "x.y", "1.0.2")))
     w = gc.warmup(cfg)
     grid = draw(gs._GRID)
     base = draw(st.sampled_from((20, 100, 10_000, 1_000_000)))
